@@ -1,6 +1,8 @@
 // Reproduction of the C09 findings F1-F5 against the real dsd code, without the
 // harness: cd /verif && go run ./h/c09/repro        (F1-F4)
-//          cd /verif && go run ./h/c09/repro f5     (F5: kills the process on the unchanged tree)
+//
+//	cd /verif && go run ./h/c09/repro f5     (F5: kills the process on the unchanged tree)
+//
 // (expected output on the unchanged tree is given in the comments; the
 // descriptions and proposed patches are in ../proposed_fixes/*.diff)
 package main
